@@ -103,8 +103,9 @@ def gen_cases(ctx, n_random):
     for src, tag in special_programs(rng, ctx.thorough):
         cases.append(dict(tag=tag, src=src))
     g = Gen(rng, max_depth=3)
-    for i in range(n_random):
-        cases.append(dict(tag="rand", src=g.program()))
+    from . import interp as _interp
+    for src in _interp.drop_excluded(ctx, [g.program() for i in range(n_random)]):
+        cases.append(dict(tag="rand", src=src))
     out = []
     for i, c in enumerate(cases):
         parts = list(PARTITIONS_Q)
